@@ -7,7 +7,7 @@ from typing import Dict, List, Optional, Set, Tuple
 
 from ..model import AnchorError, Program, dotted, kw, last_attr, norm, parent, walk_no_nested
 from ..report import Check
-from .common import calls_in, guards_of, returns_of
+from .common import calls_in, guards_of, need_locals, returns_of
 
 
 def r03_a(prog: Program, chk: Check) -> None:
@@ -49,12 +49,14 @@ def r03_b(prog: Program, chk: Check) -> None:
     chk.rule("R03.b", "literal equality is type-strict wherever it decides assignability or value identity", floor=5)
     ci = prog.cls("KnownValue")
     ca = ci.methods["can_assign"]
+    need_locals(ca, "other")
     ok = False
     for n in walk_no_nested(ca):
         if isinstance(n, ast.If) and "safe_equals(self.val, other.val)" in norm(n.test):
             ok = "type(self.val) is type(other.val)" in norm(n.test) and isinstance(n.test, ast.BoolOp) and isinstance(n.test.op, ast.And)
     chk.ob("R03.b", "value::KnownValue.can_assign::type-strict", ok, prog.site("value", ca), "equal literals are only interchangeable when their types are identical (True is not Literal[1])")
     eq = ci.methods["__eq__"]
+    need_locals(eq, "other")
     t = norm(eq)
     chk.ob("R03.b", "value::KnownValue.__eq__::type-strict", "type(self.val) is type(other.val)" in t and "safe_equals(self.val, other.val)" in t and " and " in t, prog.site("value", eq), "KnownValue equality must require identical payload types")
     h = ci.methods["__hash__"]
@@ -62,9 +64,11 @@ def r03_b(prog: Program, chk: Check) -> None:
     chk.ob("R03.b", "value::KnownValue.__hash__::keys-on-type", all("type(self.val)" in r for r in rets) and bool(rets), prog.site("value", h), "the hash must include the payload type so that 1 and True do not collide into one union member")
     mv = prog.cls("MultiValuedValue")
     ks = mv.methods["_get_known_subvals"]
+    need_locals(ks, "subval")
     t = norm(ks)
     chk.ob("R03.b", "value::MultiValuedValue._get_known_subvals::keys-on-type", "(subval.val, type(subval.val))" in t, prog.site("value", ks), "the literal lookup table of large unions must be keyed by (value, type)")
     mc = mv.methods["can_assign"]
+    need_locals(mc, "other", "known_values")
     t = norm(mc)
     chk.ob("R03.b", "value::MultiValuedValue.can_assign::lookup-keys-on-type", "(other.val, type(other.val)) in known_values" in t, prog.site("value", mc), "the literal fast path must look up (value, type)")
 
@@ -75,6 +79,7 @@ LITERAL_CONTAINERS = ["list", "tuple", "set", "frozenset", "dict"]
 def r03_c(prog: Program, chk: Check) -> None:
     chk.rule("R03.c", "literal-container coverage: list, tuple, set, frozenset and dict literals are decomposed element-wise by replace_known_sequence_value", floor=5)
     fn = prog.func("value", "replace_known_sequence_value")
+    need_locals(fn, "value")
     handled: Set[str] = set()
     for n in walk_no_nested(fn):
         if isinstance(n, ast.Call) and last_attr(n) == "isinstance" and len(n.args) == 2 and norm(n.args[0]) == "value.val":
